@@ -684,6 +684,169 @@ def check_extended_histograms(run, r, vsim, model, d, n):
                 os.remove(f)
 
 
+# ---------------------------------------------------------------- TI sample grids of a bias (colvarbias_ti)
+def gen_ti(r, k):
+    nd = r.choice([1, 1, 2])
+    vs = [{"lower": V.dyadic(r, -2, 2, bits=1), "w": r.choice([1.0, 0.5]), "nx": r.randint(2, 5)} for _ in range(nd)]
+    same = r.random() < 0.4
+    events = []
+    out = 0          # steps still to be spent off the grid (an excursion of the first variable)
+    for s_ in range(r.randint(6, 14)):
+        xs = []
+        for d, v in enumerate(vs):
+            span = v["w"] * v["nx"]
+            q = r.random()
+            if d == 0 and out > 0:
+                x = v["lower"] + r.choice([-1, 1]) * r.randint(1, 12) * v["w"] / 8 + (span if r.random() < 0.5 else 0.0)
+                if v["lower"] <= x < v["lower"] + span:
+                    x = v["lower"] - v["w"] / 8
+            elif q < 0.2:
+                x = v["lower"] + r.randint(0, v["nx"]) * v["w"]                      # on an edge (both boundaries included)
+            elif q < 0.3:
+                x = v["lower"] - r.randint(1, 7) * v["w"] / 8 if r.random() < 0.5 else v["lower"] + span + r.randint(0, 7) * v["w"] / 8
+            else:
+                x = v["lower"] + r.randint(0, 8 * v["nx"] - 1) * v["w"] / 8 + v["w"] / 16
+            xs.append(x)
+        if out > 0:
+            out -= 1
+        elif r.random() < 0.2:
+            out = r.randint(1, 3)                                                      # leave the grid for 1-3 steps, then return
+        kind = "S"
+        if s_ > 0:
+            q = r.random()
+            kind = "B" if q < 0.12 else ("R" if q < 0.22 else "S")
+        if kind in ("B", "R"):
+            xs, fs = list(events[-1][1]), list(events[-1][2])                        # the same configuration is computed again
+        else:
+            fs = [V.dyadic(r, -8, 8, bits=2) for _ in vs]
+        events.append((kind, xs, fs))
+    return {"id": k, "vars": vs, "same": same, "events": events}
+
+
+def ti_scenario(c, statefile):
+    nd = len(c["vars"])
+    cfg = ["config END"]
+    for d, v in enumerate(c["vars"]):
+        cfg += ["colvar {", "  name v%d" % d, "  lowerBoundary %r" % v["lower"], "  upperBoundary %r" % (v["lower"] + v["w"] * v["nx"]), "  width %r" % v["w"],
+                "  distanceZ {", "    main { atomNumbers %d }" % (d + 1), "    ref { dummyAtom (0,0,0) }", "    axis (0,0,1)", "    oneSiteTotalForce on", "  }", "}"]
+    cfg += ["harmonic {", "  name r", "  colvars " + " ".join("v%d" % d for d in range(nd)), "  centers " + " ".join("0" for _ in range(nd)),
+            "  forceConstant 0", "  writeTISamples on", "}", "END"]
+    L = ["natoms %d" % nd, "samestep %d" % (1 if c["same"] else 0), "totalforces 1", "includecv 0", "prefix tiout%d" % c["id"], "new"] + cfg + \
+        ["show atomf 0 energy 0 bias 0 cv 0"]
+    nrest = 0
+    for kind, xs, fs in c["events"]:
+        for d in range(nd):
+            L += ["pos %d 0 0 %s" % (d + 1, V.hexf(xs[d])), "eforce %d 0 0 %s" % (d + 1, V.hexf(fs[d]))]
+        if kind == "R":
+            nrest += 1
+            rf = "%s.r%d" % (statefile, nrest)
+            L += ["save %s %s" % ("binary" if (c["id"] + nrest) % 2 else "text", rf), "fresh"] + cfg + ["load %s" % rf]
+        elif kind == "B":
+            L.append("runboundary")
+        L.append("step")
+    L += ["save text %s" % statefile, "postrun"]
+    return "\n".join(L) + "\n"
+
+
+def ti_expected(c):
+    """exact TI grids of the scenario, and the model's input line"""
+    vs = c["vars"]
+    nd = len(vs)
+    nt = 1
+    for v in vs:
+        nt *= v["nx"]
+    cnt = [0] * nt
+    sm = [Fr(0)] * (nt * nd)
+    def addr(xs):
+        a = 0
+        for v, x in zip(vs, xs):
+            i = floor_fr((fr(x) - fr(v["lower"])) / fr(v["w"]))
+            if not (0 <= i < v["nx"]):
+                return None
+            a = a * v["nx"] + i
+        return a
+    parts = ["TI", "1" if c["same"] else "0", str(nd)] + [V.hexf(v["lower"]) for v in vs] + [V.hexf(v["w"]) for v in vs] + [str(v["nx"]) for v in vs] + \
+            [str(len(c["events"]))]
+    rel, prev = 0, None
+    for ne, (kind, xs, fs) in enumerate(c["events"]):
+        if ne > 0:
+            if kind == "R":
+                rel = 0
+            elif kind == "S":
+                rel += 1
+        cont = kind == "B"
+        delivered = fs if c["same"] else (prev[1] if prev else [0.0] * nd)     # lagged: the force that acted at the previous call
+        parts += ["R" if kind == "R" else "S", str(rel), "1" if cont else "0"] + [V.hexf(x) for x in xs] + [V.hexf(f) for f in delivered]
+        if rel > 0 and not cont:
+            sx = xs if c["same"] else prev[0]          # the values the force belongs to
+            a = addr(sx)
+            if a is not None:
+                cnt[a] += 1
+                for d_ in range(nd):
+                    sm[a * nd + d_] += fr(delivered[d_])
+        prev = (xs, fs)
+    return cnt, sm, " ".join(parts)
+
+
+def parse_ti_state(path, name="r"):
+    txt = open(path).read()
+    m = re.search(r"restraint\s*\{\s*configuration\s*\{[^}]*name\s+%s\s*\}\s*histogram\s+([^a-z}]*)system_forces\s+([^}]*)\}" % re.escape(name), txt)
+    if not m:
+        return None, None
+    return [float(t) for t in m.group(1).split()], [float(t) for t in m.group(2).split()]
+
+
+def check_ti_samples(run, r, vsim, model, d, n):
+    cs = [gen_ti(r, k) for k in range(n)]
+    em = [ti_expected(c) for c in cs]
+    rc, mout, e = V.run_lines(model, [m for _, _, m in em])
+    for k, (c, (cnt, sm, mline)) in enumerate(zip(cs, em)):
+        sf, sc = os.path.join(d, "ti%d.state" % k), os.path.join(d, "ti%d.scn" % k)
+        scn = ti_scenario(c, sf)
+        open(sc, "w").write(scn)
+        rcv, o, ev = V.sh([vsim, sc], cwd=d, timeout=120)
+        nd = len(c["vars"])
+        off = sum(1 for kind, xs, fs in c["events"] if any(not (v["lower"] <= x < v["lower"] + v["w"] * v["nx"]) for v, x in zip(c["vars"], xs)))
+        run.count("ti%d" % k, sum(cnt) >= 2 and off >= 1)
+        run.dist("ti:%s" % ("same-step" if c["same"] else "lagged"))
+        run.dist("ti:nd=%d" % nd)
+        bad_cmd = [l for l in o.split("\n") if (l.startswith("LOAD") or l.startswith("SAVE") or l.startswith("CONFIG")) and "err=ok" not in l]
+        if bad_cmd or not os.path.exists(sf):
+            run.mismatch("ti:run", {"scenario": scn}, bad_cmd[:3] or o[-300:], "all ok")
+            continue
+        gc, gf = parse_ti_state(sf)
+        exp_avg = [float(sm[j] / cnt[j // nd]) if cnt[j // nd] else 0.0 for j in range(len(sm))]
+        if gc is None or gc != [float(x) for x in cnt]:
+            run.violation("ti:counts", "TI sample counts %s (%s total forces); every eligible step contributes one sample to the bin of the values %s: %s" % (
+                gc, "same-step" if c["same"] else "lagged", "of that step" if c["same"] else "of the previous step", cnt),
+                {"kind": "hist", "scenario": scn, "expected": cnt, "got": gc})
+        elif gf is None or len(gf) != len(exp_avg) or any(not gridio.close(a, b, 1e-12) for a, b in zip(gf, exp_avg)):
+            run.violation("ti:forces", "TI average forces %s differ from the averages %s of the forces of the collected samples" % (gf, exp_avg),
+                          {"kind": "hist", "scenario": scn, "expected": exp_avg, "got": gf})
+        # the model: counts and force sums
+        try:
+            mc, mf = [[float.fromhex(t) for t in part.split()] for part in mout[k].split(" @@ ")]
+        except (ValueError, IndexError):
+            mc = mf = None
+        if gc is not None and (mc != gc or mf is None or any(not gridio.close(a * (cnt[j // nd] or 1), b, 1e-12) for j, (a, b) in enumerate(zip(gf, mf)))):
+            run.mismatch("ti:counts", {"scenario": scn, "model_case": mline}, [gc, gf], [mc, mf])
+        # the bias's own files: counts and average forces per bin
+        fc, ff = os.path.join(d, "tiout%d.r.ti.count" % k), os.path.join(d, "tiout%d.r.ti.force" % k)
+        if os.path.exists(fc) and os.path.exists(ff):
+            rows_c = [float(l.split()[nd]) for l in open(fc).read().split("\n") if l.strip() and not l.startswith("#")]
+            rows_f = [float(x) for l in open(ff).read().split("\n") if l.strip() and not l.startswith("#") for x in l.split()[nd:]]
+            if rows_c != [float(x) for x in cnt] or len(rows_f) != len(exp_avg) or any(not gridio.close(a, b, 1e-12) for a, b in zip(rows_f, exp_avg)):
+                run.violation("ti:files", "the files .ti.count / .ti.force list %s / %s; collected: %s / %s" % (rows_c, rows_f, cnt, exp_avg),
+                              {"kind": "hist", "scenario": scn})
+        else:
+            run.mismatch("ti:files", {"scenario": scn}, "no .ti.count/.ti.force file", "written")
+        if k == 0:
+            run.sample({"ti_scenario": scn.split("\n")[:30], "counts": gc})
+        for f in [sf, sc] + glob.glob(sf + ".r*") + glob.glob(os.path.join(d, "tiout%d.*" % k)):
+            if os.path.exists(f):
+                os.remove(f)
+
+
 def check_hist_state_other_grid(run, vsim, d):
     """a histogram state (raw counts, no grid parameters) loaded by a job whose grid legally differs: more or fewer bins must be
     an error; the same number of bins on other boundaries cannot be noticed by the reader (recorded finding)"""
@@ -979,6 +1142,7 @@ def check(run):
     check_meta_states(run, V.rng("C15meta"), vsim, d, 9 if quick else 90)
     check_bad_histogram_configs(run, vsim, d)
     check_hist_state_other_grid(run, vsim, d)
+    check_ti_samples(run, V.rng("C15ti"), vsim, model, d, 30 if quick else 500)
     check_extended_histograms(run, V.rng("C15ext"), vsim, model, d, 4 if quick else 60)
     if check_vector_histogram(run, vsim, d):
         check_vector_scenarios(run, V.rng("C15vec"), vsim, model, d, 30 if quick else 400)
